@@ -86,7 +86,8 @@ def ff_getters(repo, res, ty, rule="FF"):
             res.undecided(rule, f"{rule}:{fq}", "function not found")
             continue
         envs = A.collect_envs(fn)
-        tups = [n for n in A.walk(fn.body) if n["k"] == "Tuple" and len(n["elems"]) == 2 and any(True for _ in P.find_calls(n, methods={idf}))]
+        # the cell: a 2-tuple whose first component is computed (in place or through a local) by the id lookup
+        tups = [n for n in A.walk(fn.body) if n["k"] == "Tuple" and len(n["elems"]) == 2 and idf in A.reach_calls(n["elems"][0], envs.get(id(n)))]
         ok = len(tups) == 1
         if ok:
             e = envs.get(id(tups[0]))
